@@ -342,7 +342,9 @@ def fixed_scenarios(ctx):
 
 # pathlib normalises `x/.` to `x` and `./x` to `x`: under SCANDOTDIR one pattern can reach one file by two spellings
 DOT_TREE = [('.h', 'd', None), ('.h/.g', 'd', None), ('.h/.g/f', 'f', None), ('.h/v', 'f', None), ('d', 'd', None), ('d/.k', 'd', None),
-            ('d/.k/x', 'f', None), ('d/w', 'f', None), ('.f', 'f', None), ('t', 'f', None)]
+            ('d/.k/x', 'f', None), ('d/w', 'f', None), ('.f', 'f', None), ('t', 'f', None),
+            # a backslash is an ordinary character of a POSIX name: `b\\` and `b\\.` are two files, `c\\.` is a directory
+            ('b\\', 'f', None), ('b\\.', 'f', None), ('c\\.', 'd', None), ('c\\./y', 'f', None), ('c\\', 'd', None), ('c\\/y', 'f', None), ('e\n', 'f', None), ('e', 'f', None)]
 
 
 def dot_segment_scenarios(ctx):
@@ -350,7 +352,8 @@ def dot_segment_scenarios(ctx):
     ST, DS, Q = (('star',),), lit('.') + (('star',),), (('q',),)
     DQ = lit('.') + (('q',),)
     shapes = [[DS, DS], [DS, DS, DS], [ST, DS, DS], [DS], [DS, ST], [ST, DS], [DS, lit('.')], [lit('.'), DS], [DS, lit('..')], [DQ, DS],
-              [DS, DQ], [ST, ST], [DS, ST, DS], [lit('d'), DS, DS], [lit('.h'), DS], [DS, lit('.g')], [DS, DS, ST], [Q, DS], [(('gstar',),), DS]]
+              [DS, DQ], [ST, ST], [DS, ST, DS], [lit('d'), DS, DS], [lit('.h'), DS], [DS, lit('.g')], [DS, DS, ST], [Q, DS], [(('gstar',),), DS],
+              [lit('b') + ST], [lit('c') + ST, ST], [lit('c') + ST], [Q + Q], [Q + Q + Q], [(('gstar',),), lit('y')], [lit('e') + ST], [lit('e')]]
     fsets = [('SCANDOTDIR',), ('SCANDOTDIR', 'DOTGLOB'), ('SCANDOTDIR', 'NOUNIQUE'), ('SCANDOTDIR', 'GLOBSTAR'), ('SCANDOTDIR', 'NODOTDIR'),
              (), ('DOTGLOB',), ('SCANDOTDIR', 'NODIR'), ('SCANDOTDIR', 'DOTGLOB', 'GLOBSTAR', 'NOUNIQUE')]
     idx, todo = 0, []
